@@ -113,6 +113,7 @@ def run_subdivide(nodes, flat, as_tuples=False, judge_curve=True):
             raise LoopBudget()
         return real_bezmisc.beziersplitatt(bez, par)
 
+    core.rejected(plot_utils.subdivideCubicPath, [[(0, 0), (0, 0), (1, 1)], [(2, 2)]], 0.5)
     plot_utils.bezmisc = types.SimpleNamespace(beziersplitatt=split_hook)
     try:
         with core.watchdog(5.0 + 0.5 * len(nodes)):
@@ -225,7 +226,8 @@ def long_node_lists():
 # (scale, shift): a big copy, and the *same-sized* curve two thousand million units from the
 # origin - there every coordinate-relative notion of "equal" (math.isclose, 1e-9 * |x|) is
 # coarser than the curve itself, while all the arithmetic that matters stays exact
-SIMILARITIES = [(1 << 16, (1 << 20, -(1 << 21))), (1, (1 << 31, -(1 << 30)))]
+SIMILARITIES = [(1 << 16, (1 << 20, -(1 << 21))), (1, (1 << 31, -(1 << 30))),
+                (2.0 ** 200, (0, 0)), (2.0 ** -200, (0, 0))]      # ... and the same curve in absurd units
 
 
 def transformed(nodes, scale, shift):
